@@ -567,7 +567,7 @@ func genHistory(g *hx.Gen) {
 }
 
 func gen(g *hx.Gen) {
-	for h := 0; h < g.N(100, 1500); h++ {
+	for h := 0; h < g.N(100, 1000); h++ {
 		genHistory(g)
 	}
 	g.Emit("reset")
